@@ -10,11 +10,11 @@ def sh(cmd, **kw):
     return subprocess.run(cmd, shell=True, stdout=subprocess.PIPE, stderr=subprocess.STDOUT, text=True, **kw)
 assert sh("git -C %s diff --quiet" % REPO).returncode == 0, "tree not clean"
 FILTER = sys.argv[1] if len(sys.argv) > 1 else ""
-OUT = "MATRIX.md" if not FILTER else "MATRIX_%s.md" % FILTER
+OUT = "MATRIX.md" if not FILTER else "MATRIX_%s.md" % (FILTER if "," not in FILTER else "part")
 rows = []
 for sid in sorted(os.listdir(os.path.join(HERE, "seeded"))):
     d = os.path.join(HERE, "seeded", sid)
-    if not os.path.isfile(os.path.join(d, "patch.diff")) or FILTER not in sid:
+    if not os.path.isfile(os.path.join(d, "patch.diff")) or not any(f in sid for f in FILTER.split(",")):
         continue
     meta = json.load(open(os.path.join(d, "meta.json")))
     prop = meta.get("property", sid[:3])
